@@ -91,6 +91,15 @@ def stepLine (fx : Fixes) (st : DState) (line : String) : DState × String :=
         | _, _, _, _, _, _, _, _ => "n/a NOBIGRAM=na"
       | _, _ => "n/a NOBIGRAM=na"
     (st, s!"extract {id} MODEL {model} P MECABCOST={p} MECABSPEC={spec}")
+  | "limits" :: id :: "BIGRAM" :: rows :: _ =>
+    -- `C10guard.bigram_dict_builders_total_guarded` (never a panic); 65535 or more rows are rejected (F26), fewer
+    -- rows give a usable dictionary for the generated files (every row well-formed, ids in range)
+    let r := rows.toNat?.getD 0
+    (st, s!"limits {id} MODEL {if r ≥ 65535 then "err" else "ok cost=ok tok=ok2"}")
+  | "limits" :: id :: "MATRIX" :: nr :: nl :: _ =>
+    -- matrix.def header: both numbers are parsed as `u16`
+    let ok := nr.toNat?.getD 0 ≤ 65535 && nl.toNat?.getD 0 ≤ 65535
+    (st, s!"limits {id} MODEL {if ok then "ok cost=ok tok=ok2" else "err"}")
   | "cli" :: id :: _ =>
     -- the command-line programs are wrappers: their observable results are those of the library calls
     -- they are documented to make (which the other streams tie to the model)
